@@ -4,6 +4,7 @@ package main
 
 import (
 	"crypto/sha1"
+	"regexp"
 	"fmt"
 	"go/types"
 	"strconv"
@@ -960,7 +961,22 @@ func (x *Exec) applySpecFn(env *Env, sf *SpecFn, args []Val) Val {
 			ts = append(ts, a.T)
 		}
 		fn := x.declareFun("spec!"+sf.Name, sorts, x.P.sortOf(rt))
-		return Val{T: App(fn, x.P.sortOf(rt), ts...), Ty: rt}
+		res := Val{T: App(fn, x.P.sortOf(rt), ts...), Ty: rt}
+		if len(sf.Ensures) > 0 && env.depth < 4 {
+			if as := argString(args); !strings.Contains(as, "q!") && !strings.Contains(as, "a!") {
+				n := &Env{x: x, st: env.st, vars: map[string]Val{}, pkg: env.pkg, depth: env.depth + 1, rootSt: env.rootSt, oldHeaps: env.oldHeaps}
+				for i, p := range sf.Params {
+					a := args[i]
+					a.Ty = x.specParamType(sf.PTypes[i], a.Ty, env.pkg)
+					n.vars[p] = a
+				}
+				n.vars["result"] = res
+				for _, en := range sf.Ensures {
+					env.root().assume(x.trBool(n, en.E))
+				}
+			}
+		}
+		return res
 	}
 	if !sf.Rec {
 		n := &Env{x: x, st: env.st, vars: map[string]Val{}, pkg: env.pkg, post: env.post, oldHeaps: env.oldHeaps, depth: env.depth, rootSt: env.rootSt}
@@ -974,70 +990,84 @@ func (x *Exec) applySpecFn(env *Env, sf *SpecFn, args []Val) Val {
 		v.T = x.share(v.T)
 		return v
 	}
-	// recursive: uninterpreted symbol + definitional axiom over the current heaps
+	// recursive: uninterpreted symbol + definitional axiom. The symbol is
+	// indexed by the heap state it is unfolded in, so that (mutually)
+	// recursive definitions over different heap versions never share a name.
 	var sorts []Sort
 	var ts []Term
+	for i := range sf.Params {
+		ty := x.specParamType(sf.PTypes[i], args[i].Ty, env.pkg)
+		sorts = append(sorts, x.P.sortOf(ty))
+		ts = append(ts, args[i].T)
+	}
+	rs := x.P.sortOf(rt)
+	if x.recDone == nil {
+		x.recDone = map[string]bool{}
+		x.recPending = map[string]bool{}
+		x.recName = map[string]string{}
+	}
+	pend := "spec!" + sf.Name + "!PENDING"
+	if x.recPending[sf.Name] {
+		// (mutually) recursive reference while the definition is being translated
+		return Val{T: App(pend, rs, ts...), Ty: rt}
+	}
+	// translate the body (in the heap state at hand) to find out which heap
+	// versions it reads; the symbol is indexed by those
+	x.recPending[sf.Name] = true
 	n := &Env{x: x, st: &State{vals: env.st.vals, heaps: copyHeaps(env.st.heaps), names: env.st.names, entry: env.st.entry}, vars: map[string]Val{}, pkg: env.pkg, depth: env.depth}
 	var binds []string
 	var bvars []Term
 	for i, p := range sf.Params {
 		ty := x.specParamType(sf.PTypes[i], args[i].Ty, env.pkg)
-		s := x.P.sortOf(ty)
-		sorts = append(sorts, s)
-		ts = append(ts, args[i].T)
 		bn := fmt.Sprintf("a!%s!%s", sf.Name, p)
-		n.vars[p] = Val{T: Term{bn, s}, Ty: ty}
-		binds = append(binds, fmt.Sprintf("(%s %s)", bn, s))
-		bvars = append(bvars, Term{bn, s})
+		n.vars[p] = Val{T: Term{bn, sorts[i]}, Ty: ty}
+		binds = append(binds, fmt.Sprintf("(%s %s)", bn, sorts[i]))
+		bvars = append(bvars, Term{bn, sorts[i]})
 	}
-	rs := x.P.sortOf(rt)
-	self := "spec!" + sf.Name + "!SELF"
-	if x.recDepth == nil {
-		x.recDepth = map[string]int{}
+	before := map[string]bool{}
+	for k := range x.axioms {
+		before[k] = true
 	}
-	if x.recDepth[sf.Name] > 0 {
-		return Val{T: App(self, rs, ts...), Ty: rt}
-	}
-	x.recDepth[sf.Name]++
 	body := x.tr(n, sf.Body)
-	x.recDepth[sf.Name]--
-	h := sha1.Sum([]byte(body.T.S))
+	delete(x.recPending, sf.Name)
+	// canonical text: references to recursive spec functions by plain name, so
+	// that the symbol does not depend on which function of a mutually
+	// recursive group was unfolded first
+	h := sha1.Sum([]byte(recRefRe.ReplaceAllString(body.T.S, "spec!$1")))
 	name := fmt.Sprintf("spec!%s!%x", sf.Name, h[:4])
 	fn := x.declareFun(name, sorts, rs)
-	lhs := App(fn, rs, bvars...)
-	ax := fmt.Sprintf("(forall (%s) (! (= %s %s) :pattern (%s)))", strings.Join(binds, " "), lhs.S, body.T.S, lhs.S)
-	ax = strings.ReplaceAll(ax, self, fn)
-	if len(x.axioms[fn]) == 0 {
-		x.axioms[fn] = append(x.axioms[fn], ax)
+	if !x.recDone[name] {
+		x.recDone[name] = true
+		lhs := App(fn, rs, bvars...)
+		ax := fmt.Sprintf("(forall (%s) (! (= %s %s) :pattern (%s)))", strings.Join(binds, " "), lhs.S, body.T.S, lhs.S)
+		x.axioms[fn] = append(x.axioms[fn], strings.ReplaceAll(ax, pend, fn))
 	}
-	return Val{T: App(fn, rs, ts...), Ty: rt}
-}
-
-// heapElemSort recovers the element sort of a heap from its name
-// (F!<struct>!<field>, E!<sort>, C!<sort>, MP!, MV!).
-func heapElemSort(h string) Sort {
-	switch {
-	case h == "MP!":
-		return SBool
-	case h == "MV!":
-		return SSlice
-	case strings.HasPrefix(h, "E!") || strings.HasPrefix(h, "C!"):
-		return Sort(h[2:])
-	case strings.HasPrefix(h, "F!"):
-		parts := strings.SplitN(h[2:], "!", 2)
-		if len(parts) == 2 {
-			for _, si := range theProg.structInfo {
-				if si.Named == parts[0] {
-					for _, f := range si.Fields {
-						if cleanName(f.Name) == parts[1] {
-							return f.Sort
-						}
-					}
-				}
+	// patch references made by definitions translated meanwhile
+	for k, as := range x.axioms {
+		for i, a := range as {
+			if strings.Contains(a, pend) {
+				x.axioms[k][i] = strings.ReplaceAll(a, pend, fn)
 			}
 		}
 	}
-	panic(unsupported{"unknown heap " + h})
+	_ = before
+	return Val{T: App(fn, rs, ts...), Ty: rt}
+}
+
+var recRefRe = regexp.MustCompile(`spec!([A-Za-z0-9_]+)!(PENDING|[0-9a-f]{8})`)
+
+func heapStateKey(st *State) string {
+	ks := sortedKeys(st.heaps)
+	var sb strings.Builder
+	for _, k := range ks {
+		if strings.HasPrefix(k, "E!") || strings.HasPrefix(k, "F!") || strings.HasPrefix(k, "M") {
+			sb.WriteString(k)
+			sb.WriteByte('=')
+			sb.WriteString(st.heaps[k].S)
+			sb.WriteByte(';')
+		}
+	}
+	return sb.String()
 }
 
 func copyHeaps(h map[string]Term) map[string]Term {
@@ -1173,4 +1203,31 @@ func mentions(e Expr, names map[string]bool) bool {
 
 func exprString(e Expr) string {
 	return fmt.Sprintf("%v", e)
+}
+
+// heapElemSort recovers the element sort of a heap from its name
+// (F!<struct>!<field>, E!<sort>, C!<sort>, MP!, MV!).
+func heapElemSort(h string) Sort {
+	switch {
+	case h == "MP!":
+		return SBool
+	case h == "MV!":
+		return SSlice
+	case strings.HasPrefix(h, "E!") || strings.HasPrefix(h, "C!"):
+		return Sort(h[2:])
+	case strings.HasPrefix(h, "F!"):
+		parts := strings.SplitN(h[2:], "!", 2)
+		if len(parts) == 2 {
+			for _, si := range theProg.structInfo {
+				if si.Named == parts[0] {
+					for _, f := range si.Fields {
+						if cleanName(f.Name) == parts[1] {
+							return f.Sort
+						}
+					}
+				}
+			}
+		}
+	}
+	panic(unsupported{"unknown heap " + h})
 }
